@@ -165,7 +165,7 @@ CHECKS = {
                 note=WR_NOTE + "; encoded-header bases and writeall walks are outside"),
     "C15": dict(engine=B, ref="DESIGN.md §3 (C15)",
                 technique="bounded symbolic execution of the real write/writestr/writef/close paths from the AST with a fault "
-                          "injected at each point (argument rejected, lstat/open raises, source read raises before/after "
+                          "injected at each point (argument rejected, lstat/open/readlink raises, source read raises before/after "
                           "consumption); closed archive parsed by the reference reader; z3 decides",
                 text="With 0-1 (2) earlier and 0-1 (2) later successful calls around one faulty call: the exception reaches the "
                      "caller (ValueError for rejected names/types), later calls and close() are unaffected (the failed source is "
@@ -226,7 +226,9 @@ CHECKS = {
                      "getinfo finds every name with or without trailing slash and raises KeyError otherwise, archiveinfo totals, "
                      "block count, solid flag and method names match the coders present, needs_password is true exactly when an "
                      "AES coder is present or a password was supplied; get_methods_names names every coder of every chain of 1-2 "
-                     "(3) coders picked symbolically from the live table of supported methods, once, and nothing else.",
+                     "(3) coders picked symbolically from the live table of supported methods, once, and nothing else - also for two "
+                     "(three) folders whose chains share their first or last coder; the time list() shows for a member is its own "
+                     "LastWriteTime, none where the archive stores none.",
                 note=RD_NOTE + "; os.stat and FILETIME->datetime are stubs"),
     "C06": dict(engine=B, ref="DESIGN.md §3 (C06)",
                 technique="bounded symbolic execution of the real reader (_real_get_contents, Header/*Info._read, Worker.extract, "
